@@ -247,8 +247,9 @@ class World:
 
     def other_cwd(self, loc: str) -> bool:
         """``loc`` lies under a working directory that is not the current one."""
-        cwd = getattr(getattr(self.store, "fs", None), "cwd", None)
-        return bool(cwd) and loc.startswith("/simfs/cwd") and not loc.startswith(cwd + "/")
+        if not getattr(self.store, "relative", False):
+            return False
+        return loc.startswith("/simfs/cwd") and not loc.startswith(self.store.current_tree() + "/")
 
     def delete(self, loc: str) -> None:
         self.store.delete(loc)
@@ -553,7 +554,7 @@ class World:
                         if world.other_cwd(loc):
                             # (permitted-stale entry loaded under another working directory: the
                             # counterpart finds that source where the relative path points now)
-                            loc = world.store.fs.cwd + loc[len("/simfs/cwdA"):]
+                            loc = world.store.current_tree() + loc[len("/simfs/cwdA"):]
                         if world.cfg["store"].startswith("ns"):
                             c.write(loc, src)
                         else:
